@@ -8,8 +8,8 @@ import (
 )
 
 // seedC01x12RoundTrip decodes doc into native values, encodes it again and
-// returns the re-marshalled JSON as a generic value together with the generic
-// value of the input.
+// returns the generic JSON value of the input and of the output together with
+// the output's bytes.
 func seedC01x12RoundTrip(t *testing.T, doc string) (in, out map[string]interface{}, raw []byte) {
 	t.Helper()
 	if err := json.Unmarshal([]byte(doc), &in); err != nil {
@@ -37,14 +37,14 @@ func seedC01x12RoundTrip(t *testing.T, doc string) (in, out map[string]interface
 	return
 }
 
+// Whole-second xsd:durations in the encoder's own lexical form survive a
+// round trip, the negative ones ("-P...") just like the positive ones.
 func TestSeedC01_12(t *testing.T) {
-	for _, doc := range []string{
-		`{"@context":"https://www.w3.org/ns/activitystreams","type":["Note","Pinned Post"],"id":"https://example.com/notes/2","content":"x"}`,
-		`{"@context":"https://www.w3.org/ns/activitystreams","type":"Create","id":"https://example.com/a/1","actor":"https://example.com/users/alice","object":{"type":["Article","Événement"],"id":"https://example.com/notes/3","name":"été"}}`,
-	} {
+	for _, d := range []string{"PT45S", "PT2H30M", "P1DT12H", "-PT45S", "-PT2H30M", "-P1DT12H", "-P1Y"} {
+		doc := `{"@context":"https://www.w3.org/ns/activitystreams","type":"Video","id":"https://example.com/v/1","name":"clip","duration":"` + d + `"}`
 		in, out, raw := seedC01x12RoundTrip(t, doc)
 		if !reflect.DeepEqual(in, out) {
-			t.Errorf("round trip is not JSON-equal:\n in: %s\nout: %s", doc, raw)
+			t.Errorf("duration %q: round trip is not JSON-equal:\n in: %s\nout: %s", d, doc, raw)
 		}
 	}
 }
